@@ -102,6 +102,10 @@ class C12(Check):
                         "geom": {"n": 4, "g": [1, -2, 3, 0, 5, -4, 2, 7, 1, 3]}, "vals": [3, None, -2, 8, 1, 4],
                         "edits": (["dh_remove", "rename"] if kind == "dhgroup" else
                                   ["values_rw", "rename"] if target != "same" else ["metadata", "values_rw"])})
+            if kind == "dhgroup" and children:
+                # the source is first read AFTER the copy was edited (values cached by an earlier read would hide a
+                # stale shared index)
+                out.append({**out[-1], "defer_source_read": True})
             if target == "ws2" and children and not clear:
                 # copying OUT of a workspace opened read-only (the source must not be written to)
                 out.append({**out[-1], "source_mode": "r"})
@@ -114,7 +118,7 @@ class C12(Check):
             "geom": st.fixed_dictionaries({"n": st.integers(2, 6), "g": st.lists(st.integers(-9, 9), min_size=3, max_size=10)}),
             "vals": st.lists(st.one_of(st.integers(-20, 20), st.none()), min_size=0, max_size=10),
             "edits": st.lists(st.sampled_from(["values", "values_rw", "vertices", "metadata", "rename", "pg", "dh_remove"]), max_size=3),
-            "source_mode": st.sampled_from(["r+", "r+", "r"]),
+            "source_mode": st.sampled_from(["r+", "r+", "r"]), "defer_source_read": st.booleans(),
         }).map(lambda d: {**{k: v for k, v in d.items() if k != "kind_cls"}, "kind": d["kind_cls"][0], "cls": d["kind_cls"][1]})
 
     # ------------------------------------------------------------------ builders
@@ -306,7 +310,10 @@ class C12(Check):
                          f"{cond}: {diff[0]}: source={diff[1]!r:.300} copy={diff[2]!r:.300}")
                 return res
             # (2) source undisturbed
-            after = self.snap(subject, p)
+            defer = bool(p.get("defer_source_read")) and kind == "dhgroup"
+            if defer:
+                res.label("source-first-read-after-edits")
+            after = before if defer else self.snap(subject, p)
             diff = first_diff(before, after)
             if diff:
                 res.fail(f"C12/source-disturbed-live/{tag}/{diff[0].split('[')[0].lstrip('.')}",
